@@ -563,10 +563,19 @@ pub fn digraph(r: &mut Rng, max: usize) -> (usize, Model) {
     (fam, family(r, fam, n))
 }
 
-/// Relabel the largest vertex id to usize::MAX (the largest legal id).
+/// Relabel the largest vertex id to usize::MAX (the largest legal id) or, in
+/// three cases of eight (chosen by the shape of the model, so that no PRNG
+/// stream shifts), to another id far outside any buffer: usize::MAX - 1,
+/// 2^63, 2^32.
 pub fn with_max_id(m: &Model) -> Model {
     let Some(&top) = m.verts.iter().max() else { return m.clone() };
-    let f = |v: usize| if v == top { usize::MAX } else { v };
+    let far = match (m.arcs.len() + 3 * top) % 8 {
+        5 => 1usize << 32,
+        6 => 1usize << 63,
+        7 => usize::MAX - 1,
+        _ => usize::MAX,
+    };
+    let f = |v: usize| if v == top { far } else { v };
     Model {
         verts: m.verts.iter().map(|&v| f(v)).collect(),
         arcs: m.arcs.iter().map(|(&(u, v), &w)| ((f(u), f(v)), w)).collect(),
